@@ -130,7 +130,7 @@ class Run:
             raise Infra("TLC did not complete on %s:\n%s" % (module, out[-3000:]))
         return out
 
-    FP = re.compile(r'<<"(C\d+)", "([^"]*)", "([^"]*)", (-?\d+)>>')
+    FP = re.compile(r'^"?FP\|(C\d+)\|([^|]*)\|([^|]*)\|(-?\d+)"?$')
 
     def validate_obs(self, module, obsfile, constants="", workers=1, timeout=1800, chunk=20000):
         """Role B1: TLC evaluates the declarative predicates on every observation record."""
@@ -148,14 +148,14 @@ class Run:
                 continue
             cfg = "INIT Init\nNEXT Next\nCONSTANTS\n  ObsFile = \"%s\"\n%s\nINVARIANT Report\nCHECK_DEADLOCK FALSE\n" % (part, constants)
             out = self.tlc(module, cfg, workers=workers, timeout=timeout, role="B1")
-            m = re.search(r'<<"SUMMARY", (\d+)', out)
+            m = re.search(r'SUMMARY\|(\d+)', out)
             if not m or int(m.group(1)) != cnt:
                 raise Infra("B1 validation of %s did not consume all %d records:\n%s" % (part, cnt, out[-3000:]))
             n += cnt
             for line in out.splitlines():
-                if line.startswith('<<"FP"'):
-                    for f in self.FP.findall(line):
-                        self.fps.append((f[0], f[1], f[2], int(f[3])))
+                m = self.FP.match(line.strip())
+                if m:
+                    self.fps.append((m.group(1), m.group(2), m.group(3), int(m.group(4))))
         self.validated += n
         return n
 
